@@ -265,12 +265,11 @@ static void sig_tests(TMCG_SecretKey &sec, TMCG_PublicKey &pub, TMCG_SecretKey &
 			if (do_verify(other, data, sg)) propfail("verify-otherkey", "signature accepted under a different key: sig=" + sg);
 			{ std::string s2 = "sig|" + other.keyid() + "|" + val + "|";
 			  if (do_verify(other, data, s2)) propfail("verify-otherkey", "signature accepted under a different key (key id patched): sig=" + s2); }
-			// stale export buffer: a value whose square is zero makes mpz_export write nothing
-			{ bool a = do_verify(pub, data, sg, false);
-			  bool z = do_verify(pub, data, "sig|" + kid + "|0|", false);
-			  bool a2 = do_verify(pub, data, sg, false);
-			  bool zm = do_verify(pub, data, "sig|" + kid + "|" + S(pub.m) + "|", false);
-			  if (a && a2 && (z || zm)) propfail("verify-zero-stale-buffer", "signature value with zero square (0 or m) accepted right after a valid verification of the same data: key=" + tag + " bits=" + std::to_string(mpz_sizeinbase(pub.m, 2)) + " data=" + xb(data) + " valid=" + sg + " forged=sig|" + kid + "|0|");
+			// stale export buffer: a value whose square is zero makes mpz_export write nothing; back-to-back raw calls
+			{ std::string zs = "sig|" + kid + "|0|", ms = "sig|" + kid + "|" + S(pub.m) + "|";
+			  bool a = pub.verify(data, sg), z = pub.verify(data, zs), a2 = pub.verify(data, sg), zm = pub.verify(data, ms);
+			  cnt.verify += 4;
+			  if (a && a2 && (z || zm)) propfail("verify-zero-stale-buffer", "signature value with zero square (0 or m) accepted right after a valid verification of the same data: key=" + tag + " bits=" + std::to_string(mpz_sizeinbase(pub.m, 2)) + " data=" + xb(data) + " valid=" + sg + " forged=" + (z ? zs : ms));
 			}
 		}
 	}
@@ -423,7 +422,9 @@ static void key_tests(TMCG_SecretKey &sec, TMCG_PublicKey &pub, bool nizk, bool 
 	{ auto g = z; g[h1 + 2] = "-" + g[h1 + 2]; nm.push_back({"stage1-negated-response", g, true, false}); }
 	{ auto g = z; g[0] = "nzx"; nm.push_back({"magic", g, true, false}); }
 	{ auto g = z; g.resize(g.size() - 2); g.push_back(""); nm.push_back({"last-response-missing", g, true, false}); }
+	size_t nmi = 0;
 	for (auto &m : nm) {
+		if (!recnizk && !thorough && (nmi++ % 4) != 1) continue;      // quick tier: every fourth entry for keys other than the first
 		TMCG_SecretKey s2(sec);
 		s2.nizk = join(m.z, '^');
 		resign(s2);
